@@ -122,7 +122,10 @@ class SFTPFile(BufferedFile):
     def _collect_write_responses(self):
         while len(self._reqs):
             req = self._reqs.popleft()
-            if req not in self.sftp._expecting:
+            if (
+                req not in self.sftp._expecting
+                and req not in self.sftp._unclaimed
+            ):
                 # already consumed while waiting for another response
                 continue
             t, msg = self.sftp._read_response(req)
@@ -226,7 +229,10 @@ class SFTPFile(BufferedFile):
         ):
             while len(self._reqs):
                 req = self._reqs.popleft()
-                if req not in self.sftp._expecting:
+                if (
+                    req not in self.sftp._expecting
+                    and req not in self.sftp._unclaimed
+                ):
                     # response already consumed while another request was
                     # waiting for its own (see SFTPClient._read_response)
                     continue
